@@ -76,6 +76,20 @@ return r + x
 			NParams: map[string]int{"§_F0": 1},
 		},
 		{
+			Kind: "corpus", Key: "debug-unused-func-range",
+			Note: "an unused (not compiled) function is listed in the debug info with range 0-65535 when the script's first instruction is removed by writeJumps",
+			Plain: `var g¶_u = max(3, 4)
+func ¶_unused(a int) int {
+return a + 1
+}
+func §_F0() int {
+return 1
+}
+`,
+			Entries: []*Entry{{Name: "§_F0", Ret: KInt, Tuples: [][]int64{{}}}},
+			NParams: map[string]int{"§_F0": 0, "¶_unused": 1},
+		},
+		{
 			Kind: "corpus", Key: "recover-stale-stack",
 			Note: "a panic recovered by a deferred call while operands are on the evaluation stack leaves them there",
 			Plain: `func ¶_rec() {
